@@ -6,6 +6,8 @@ import (
 	"math/rand"
 	"net"
 	"strings"
+	"sync"
+	"sync/atomic"
 	"testing"
 	"testing/synctest"
 	"time"
@@ -248,6 +250,154 @@ func c33Report(r *evid.Run, ci int, counts map[string]int, sigs []string, sample
 	for _, v := range viols {
 		r.Violation(v.key, ci, v.msg, v.w)
 	}
+}
+
+// ---- user events racing with the event clock (seeded C33-h)
+//
+// The size of an encoded user event depends on the width of its Lamport time. Several goroutines call
+// UserEvent with events that are exactly at (or 1..8 bytes below) the limit for the clock's current width
+// while another goroutine delivers a remote event whose Lamport time needs a wider encoding (and the callers
+// themselves push the clock over 127 -> 128). Whatever time an accepted event ends up with, what is queued
+// for gossip must be within the limit, and a refused event must not be queued.
+func c33UserEventsRacing(r *evid.Run, t *testing.T, ci int, rng *rand.Rand) {
+	limits := []int{64, 128, 512, 1024, 4096, 9216}
+	L := limits[rng.Intn(len(limits))]
+	eff := L
+	counts := map[string]int{}
+	var viols []c33Viol
+	var sigs []string
+	var setupErr string
+	type att struct {
+		name      string
+		payload   []byte
+		predicted int
+		err       error
+	}
+	synctest.Test(t, func(t *testing.T) {
+		nw := simnet.New(int64(ci))
+		nd, err := cluster.Start(nw, cluster.Opts{Name: "n1", IP: "10.33.0.9", Profile: "passive", Mutate: func(c *serf.Config) { c.UserEventSizeLimit = L }})
+		if err != nil {
+			setupErr = err.Error()
+			return
+		}
+		defer nd.Close()
+		cur := uint64(0) // a Lamport time of the clock's current width
+		if rng.Intn(2) == 0 {
+			cur = uint64(118 + rng.Intn(9)) // the callers themselves cross 127 -> 128
+			nd.NotifyMsg(wire.Encode(wire.UserEvent, &wire.MsgUserEvent{LTime: cur - 1, Name: "warm", Payload: []byte("x")}))
+		}
+		synctest.Wait()
+		nd.DrainBroadcasts()
+		jumps := []uint64{200, 60000, 70000, 1 << 33, 1 << 40}
+		ji := 0
+		serial := 0
+		for round := 0; round < 4 && ji < len(jumps); round++ {
+			ji += rng.Intn(2)
+			if ji >= len(jumps) {
+				break
+			}
+			jump := jumps[ji]
+			ji++
+			var mu sync.Mutex
+			var atts []*att
+			var start atomic.Bool
+			g := newBGroup()
+			nG := 2 + rng.Intn(3)
+			for gi := 0; gi < nG; gi++ {
+				below := 0
+				if gi > 0 {
+					below = rng.Intn(9) // 0..8 bytes below the limit: an 8-byte wider time still breaks it
+				}
+				nl := []int{8, 31, 33, 255}[rng.Intn(4)] // long enough to carry the serial number: names identify attempts
+				var mine []*att
+				for k := 0; k < 3; k++ {
+					serial++
+					name := c33Name(nl, serial)
+					base := len(wire.Encode(wire.UserEvent, &wire.MsgUserEvent{LTime: cur, Name: name, Payload: nil})) - c33BinHdr(0)
+					for p := eff - nl + 3; p >= 0 && p >= eff-nl-80; p-- {
+						if base+c33BinHdr(p)+p == eff-below {
+							mine = append(mine, &att{name: name, payload: bytes.Repeat([]byte{byte('a' + serial%26)}, p), predicted: eff - below})
+							break
+						}
+					}
+				}
+				atts = append(atts, mine...)
+				spin := rng.Intn(300)
+				g.Go(func() {
+					for !start.Load() {
+					}
+					for k := 0; k < spin; k++ {
+						_ = start.Load()
+					}
+					for _, a := range mine {
+						e := nd.S.UserEvent(a.name, a.payload, false)
+						mu.Lock()
+						a.err = e
+						mu.Unlock()
+					}
+				})
+			}
+			spin := rng.Intn(3000)
+			g.Go(func() {
+				for !start.Load() {
+				}
+				for k := 0; k < spin; k++ {
+					_ = start.Load()
+				}
+				nd.NotifyMsg(wire.Encode(wire.UserEvent, &wire.MsgUserEvent{LTime: jump, Name: "remote", Payload: []byte("y")}))
+			})
+			start.Store(true)
+			g.Wait()
+			synctest.Wait()
+			byName := map[string]*att{}
+			for _, a := range atts {
+				byName[a.name] = a
+			}
+			queuedFor := map[string]bool{}
+			for _, q := range nd.DrainBroadcasts() {
+				if len(q) == 0 || q[0] != wire.UserEvent {
+					continue
+				}
+				var m wire.MsgUserEvent
+				if wire.Decode(q[1:], &m) != nil {
+					continue
+				}
+				a := byName[m.Name]
+				if a == nil || queuedFor[m.Name] {
+					continue
+				}
+				queuedFor[m.Name] = true
+				counts["racing_user_events_queued"]++
+				wit := map[string]any{"limit": L, "name_len": len(a.name), "payload_len": len(a.payload), "sized_for_clock": cur, "encoded_for_that_clock": a.predicted, "queued_bytes": len(q), "queued_ltime": m.LTime, "remote_event_ltime": jump, "error": fmt.Sprint(a.err), "callers": nG}
+				wide := c33UintLen(m.LTime) > c33UintLen(cur)
+				if wide {
+					counts["racing_user_events_queued_with_a_wider_time"]++
+				}
+				if len(q) > eff {
+					viols = append(viols, c33Viol{fmt.Sprintf("uev-racing-queued-encoded-over/L=%d", L), fmt.Sprintf("UserEvent racing with the event clock: %d encoded bytes queued > limit %d (sized %d bytes for Lamport time %d, sent with %d)", len(q), eff, a.predicted, cur, m.LTime), wit})
+				}
+				if a.err != nil {
+					viols = append(viols, c33Viol{fmt.Sprintf("uev-racing-rejected-queued/L=%d", L), fmt.Sprintf("UserEvent refused (%v) but queued for gossip", a.err), wit})
+				}
+				sigs = append(sigs, fmt.Sprintf("uevrace|%d|%s|w%d->w%d", L, c33Off(len(q), eff), c33UintLen(cur), c33UintLen(m.LTime)))
+			}
+			for _, a := range atts {
+				counts["racing_user_event_attempts"]++
+				if a.err == nil {
+					counts["racing_user_events_accepted"]++
+				} else {
+					counts["racing_user_events_refused"]++
+					sigs = append(sigs, fmt.Sprintf("uevrace|%d|refused|w%d|below%d", L, c33UintLen(cur), eff-a.predicted))
+				}
+			}
+			cur = jump + 1
+		}
+	})
+	if setupErr != "" {
+		r.Inconclusive("racing user event bubble setup failed: " + setupErr)
+		return
+	}
+	c33Report(r, ci, counts, sigs, nil, viols, "racing_user_event_attempts")
 }
 
 // ---- queries
@@ -606,6 +756,7 @@ func c33Responses(r *evid.Run, t *testing.T, ci int, rng *rand.Rand) {
 func TestC33(t *testing.T) {
 	r := evid.Start(t, "C33", "exploration")
 	r.Cases("uev", r.N(240, 5000), 0, func(ci int, rng *rand.Rand) { c33UserEvents(r, t, ci, rng) })
+	r.Cases("uevrace", r.N(200, 5000), 0, func(ci int, rng *rand.Rand) { c33UserEventsRacing(r, t, ci, rng) })
 	r.Cases("query", r.N(300, 6000), 0, func(ci int, rng *rand.Rand) { c33Queries(r, t, ci, rng) })
 	r.Cases("resp", r.N(300, 6000), 0, func(ci int, rng *rand.Rand) { c33Responses(r, t, ci, rng) })
 	for _, k := range []string{"user_events_accepted_exactly_at_limit", "user_events_rejected_at_limit_plus_1", "queries_accepted_exactly_at_limit", "queries_rejected_at_predicted_limit_plus_1", "responses_sent_exactly_at_limit", "responds_rejected_at_limit_plus_1", "relay_envelopes_exactly_at_limit"} {
